@@ -541,8 +541,15 @@ func paramValues(c *Ctx, prm *ssa.Parameter, seen map[ssa.Value]bool, asSlice bo
 		if !ok {
 			return nil, false
 		}
+		// a value the call site excludes by a dominating 'arg == k' test on its false edge is not passed
+		var excl map[int64]bool
+		if !asSlice {
+			excl = excludedByGuards(e.Site, arg)
+		}
 		for k := range vs {
-			res[k] = true
+			if !excl[k] {
+				res[k] = true
+			}
 		}
 	}
 	return res, true
